@@ -90,7 +90,9 @@ def prune_for_facts(body, facts):
 
 
 def run(ctx):
-    cfgs = ['x86_64'] if ctx.tier == 'quick' else ['x86_64', 'aarch64', 'i686']
+    # x86_64+release: the same source with debug assertions off, so that a validation or a check hidden behind
+    # cfg(debug_assertions) (present in every test build, absent in the builds users ship) is seen missing
+    cfgs = ['x86_64', 'x86_64+release'] if ctx.tier == 'quick' else ['x86_64', 'x86_64+release', 'aarch64', 'i686']
     ctx.rule('C07.scope', 'functions with a &mut codec/work parameter returning Result<_,Error>')
     ctx.rule('C07.atomic', 'no mutation site reaches an Err exit (exceptions E1, D1)')
     ctx.rule('C07.d1', 'D1 discharge: same pure predicate already true on every path to the mutation')
